@@ -32,6 +32,15 @@ structure TAcc where
   failN : Nat := 0                 -- a `failspawn n` op is pending: the n-th thread creation from now on fails (0 = none)
   bulkDrained : Bool := false      -- a drain / settle succeeded after the bulk submission and before cleanup
   pendX : Option (Nat × Int × Bool × Nat × Bool) := none   -- the execute() just answered: (task, prio, cb, cs, token returned)
+  mn0 : Nat := 0                   -- configuration of the FIRST lifecycle (the replay starts from `init` of it)
+  max0 : Nat := 1
+  life : Nat := 0                  -- lifecycles finished so far on this object (`relife`)
+  prevTasks : Nat := 0             -- loop-submitted tasks of the previous lifecycle (stale tokens: `ostat` / `ocancel`)
+  ranTot : Nat := 0                -- bodies / callbacks / order pairs of the finished lifecycles
+  cbTot : Nat := 0
+  pairsTot : Nat := 0
+  segMd : List String := []        -- thread-accounting divergences of finished lifecycles
+  segOk : Bool := false            -- the initialize() of the CURRENT lifecycle was accepted (WorkThread: true)
 
 def TAcc.ev (a : TAcc) (q thr : Nat) (k : EvK) : TAcc := if q == 0 then a else { a with evs := a.evs.push ⟨q, thr, k⟩ }
 
@@ -229,11 +238,12 @@ def boundedNat0 (s : String) (hi : Nat) : Option Nat := do
   if n ≤ hi then some n else none
 
 /-- mirrors `parse_script` of the harness; returns the number of actions -/
-def scriptOk (w : String) (ntasks : Nat) : Bool :=
+def scriptOk (w : String) (ntasks : Nat) (allowR : Bool := false) : Bool :=
   if w == "-" then true else
   let items := w.splitOn ","
   items.length ≥ 1 && items.length ≤ 6 && items.all fun it =>
     if it == "S" || it == "C" then true
+    else if it == "R1" || it == "R2" || it == "R3" || it == "R4" then allowR
     else match it.toList with
       | 's' :: rest | 'c' :: rest =>
         (match (String.ofList rest).toNat? with | some k => !rest.isEmpty && decide (k < ntasks) | none => false)
@@ -280,14 +290,15 @@ def stepOp1 (a : TAcc) (line : String) : TAcc :=
         | (none, _) => fail a "implementation output ends at cfg (crash / timeout)"
       let a1 := { a1 with failN := if failsInit then 0 else a1.failN - (if isPool && ok then mn else 0),
                           tags := (if failsInit then ["init-spawn-failed"] else []) ++ a1.tags }
-      { a1 with configured := true, ready := ok, okCfg := ok, wt0 := kind == "wt0", mn := (if isPool then mn else 1),
+      { a1 with configured := true, ready := ok, okCfg := ok, segOk := ok, wt0 := kind == "wt0", mn := (if isPool then mn else 1),
+                mn0 := (if isPool then mn else 1), max0 := (if isPool then mx else 1),
                 h := { a1.h with isPool := isPool, max := if isPool then mx else 1 },
                 tags := (if isPool then (if mn == mx then "pool-fixed" else if mn == 0 then "pool-min0" else "pool-elastic") else "workthread") :: a1.tags }
     | _, _, _, _ => bad
   | "exec" :: prio :: cb :: dur :: [] | "execs" :: prio :: cb :: dur :: _ :: _ :: [] =>
     let ws := words line
     let scriptsOk := ws.length == 4 ||
-      (scriptOk (ws.getD 4 "") a.h.tasks.size && scriptOk (ws.getD 5 "") a.h.tasks.size && (cb == "1" || ws.getD 5 "" == "-"))
+      (scriptOk (ws.getD 4 "") a.h.tasks.size && scriptOk (ws.getD 5 "") a.h.tasks.size (allowR := !a.wt0) && (cb == "1" || ws.getD 5 "" == "-"))
     match intOfString? prio, boundedNat dur 20000 with
     | some p, some _ =>
       if !(cb == "0" || cb == "1") || p < -2147483648 || p > 2147483647 || !a.configured || a.h.tasks.size ≥ 2048 || a.fin || !scriptsOk then bad else
@@ -350,6 +361,40 @@ def stepOp1 (a : TAcc) (line : String) : TAcc :=
           | _, _, _, _ => fail a s!"unparsable [{l}]"
         | _ => fail a s!"impl=[{l}] expected a cancel line"
     | none => bad
+  | ["relife", mn, mx] =>
+    -- initialize() again on the same object after cleanup() has returned: the finished lifecycle is validated as a
+    -- history of its own (its records are printed first, like `fin`), the step-level replay continues across it
+    match ssizeOf? mn, ssizeOf? mx with
+    | some smn, some smx =>
+      if !a.configured || !a.h.isPool || !a.cleaned || a.destroyed || a.fin || a.failN != 0 || a.h.bulkN != 0 || (smn > 64 && smn ≤ smx) then bad else
+      let nLoop := a.h.tasks.size
+      let a1 := takeEvents a
+      if a1.err.isSome then a1 else
+      match check a1.h with
+      | .error e => fail a s!"lifecycle {a.life + 1}: {e}"
+      | .ok n =>
+        let expectW := (if a1.segOk then a1.mn else 0) + a1.spawns
+        let md := if a1.nest.isEmpty && !a1.tags.contains "init-spawn-failed" && a1.h.workers.size != expectW then
+          [s!"lifecycle {a.life + 1}: thread accounting: {a1.h.workers.size} worker threads were created, expected min + spawns = {expectW}"] else []
+        let ok2 := Cfg.okI smn smx
+        match nextLine a1 with
+        | (none, _) => fail a "implementation output ends at relife (crash / timeout)"
+        | (some l, a2) =>
+          match words l with
+          | ["P", "init", o, live, qb] =>
+            if o != (if ok2 then "1" else "0") then fail a s!"initialize({smn}, {smx}) after cleanup() answered {o}, expected {if ok2 then 1 else 0} [{l}]"
+            else if live.toNat? != some (if ok2 then smn.toNat else 0) then
+              fail a s!"initialize({smn}, {smx}) after cleanup(): {live} worker threads are alive, expected {if ok2 then smn.toNat else 0} [{l}]"
+            else
+              let a3 := if ok2 then a2.ev (qb.toNat?.getD 0) 0 (.api (.init smn.toNat smx.toNat)) else a2
+              { a3 with h := { isPool := true, max := smx.toNat }, nest := [], ready := ok2, segOk := ok2, cleaned := !ok2, fin := false,
+                        spawns := 0, mn := smn.toNat, life := a.life + 1, prevTasks := nLoop, ranTot := a.ranTot + a1.h.bodies.size,
+                        cbTot := a.cbTot + a1.h.cbs.size, pairsTot := a.pairsTot + n, segMd := a.segMd ++ md, bulkDrained := false,
+                        pendX := none, tags := (if ok2 then "relife" else "relife-refused") :: a3.tags }
+          | _ =>
+            if l.startsWith "P init threw" then fail a s!"initialize() after cleanup() threw an exception [{l}]"
+            else fail a s!"impl=[{l}] expected an init line"
+    | _, _ => bad
   | ["reinit", mn, mx] =>
     -- initialize() on a pool that is ready is refused and changes nothing (whatever the arguments)
     match ssizeOf? mn, ssizeOf? mx with
@@ -374,6 +419,53 @@ def stepOp1 (a : TAcc) (line : String) : TAcc :=
   | ["failspawn", n] =>
     match boundedNat n 8 with
     | some n => if n == 0 || (a.configured && !a.h.isPool) || a.destroyed then bad else expectExact { a with failN := n } "P failspawn"
+    | none => bad
+  | ["holdpick", us] =>
+    match boundedNat us 20000 with
+    | some n => if n == 0 || !a.configured then bad else expectExact { a with tags := "holdpick" :: a.tags } "P holdpick"
+    | none => bad
+  | ["ostat", k] | ["ocancel", k] =>
+    -- a token of the previous lifecycle of the same object: the task has run, was cancelled or was dropped — the only
+    -- answer consistent with that history is not-found / 1 (property level), in every later lifecycle
+    let isC := (words line).head! == "ocancel"
+    match k.toNat? with
+    | some k =>
+      if !a.configured || !a.h.isPool || k ≥ a.prevTasks then bad else
+      match nextLine a with
+      | (none, _) => fail a "implementation output ends at ostat / ocancel (crash / timeout)"
+      | (some l, a') =>
+        match words l with
+        | ["P", o, k', r, _, _, cs] =>
+          if o != (if isC then "ocancel" else "ostat") || k'.toNat? != some k then fail a s!"impl=[{l}] expected an {if isC then "ocancel" else "ostat"} line" else
+          if !isC && r != "n" then fail a s!"getTaskStatus with the token of task {k} of the PREVIOUS lifecycle answered {r}: a stale token must be NOT FOUND (it aliases a task of the new lifecycle)"
+          else if isC && r != "1" then fail a s!"cancel with the token of task {k} of the PREVIOUS lifecycle answered {r}: a stale token must answer 1 (it aliases a task of the new lifecycle)"
+          else
+            let ev : Api := if isC then .cancel (4096 + k) 1 else .stat (4096 + k) .notFound
+            { (a'.ev (if a'.ready then cs.toNat?.getD 0 else 0) 0 (.api ev)) with tags := "stale-token" :: a'.tags }
+        | _ => fail a s!"impl=[{l}] expected an ostat / ocancel line"
+    | none => bad
+  | ["forge", kind, k] =>
+    match k.toNat? with
+    | some k =>
+      let foreign := kind == "wt" || kind == "pool"
+      if !a.configured || a.h.bulkN != 0 || (!a.h.isPool && a.cleaned) ||
+         !(foreign || kind == "pos" || kind == "posbig" || kind == "idbig" || kind == "idmax" || kind == "null") ||
+         (if foreign then k != 0 else k ≥ a.h.tasks.size) then bad else
+      match nextLine a with
+      | (none, _) => fail a "implementation output ends at forge (crash / timeout)"
+      | (some l, a') =>
+        match words l with
+        | ["P", "forge", st, r, _, _, cs1, cs2] =>
+          if st != "n" || r != "1" then
+            fail a s!"a token this object never issued (forge {kind}) was answered status={st} cancel={r}: it must be NOT FOUND / 1 (forged, foreign or null tokens must never resolve)"
+          else
+            let live := a'.ready
+            let a2 := a'.ev (if live then cs1.toNat?.getD 0 else 0) 0 (.api (.forged false 2))
+            let a3 := a2.ev (if live then cs2.toNat?.getD 0 else 0) 0 (.api (.forged true 1))
+            { a3 with tags := (if foreign then "foreign-token" else "forged-token") :: a3.tags }
+        | ["P", "forge", "threw", _, _] =>
+          fail a s!"a token this object never issued (forge {kind}) made getTaskStatus / cancel throw an exception: forged tokens must be answered NOT FOUND / 1"
+        | _ => fail a s!"impl=[{l}] expected a forge line"
     | none => bad
   | ["snap"] =>
     if !a.configured || !a.h.isPool then bad else
@@ -490,12 +582,12 @@ def finish (d : DS) : List String :=
         | .error e => ["B " ++ " ".intercalate (tags0.eraseDups), "reject " ++ e]
         | .ok n =>
           -- thread accounting: threads created = min (or 1 for WorkThread) + spawns
-          let expectW := (if a.h.isPool then (if a.okCfg then a.mn else 0) else 1) + a.spawns
-          let md := a.mdiv ++ (if a.configured && a.nest.isEmpty && a.h.bulkN == 0 && !a.tags.contains "init-spawn-failed" && a.h.workers.size != expectW then
+          let expectW := (if a.h.isPool then (if a.segOk then a.mn else 0) else 1) + a.spawns
+          let md := a.mdiv ++ a.segMd ++ (if a.configured && a.nest.isEmpty && a.h.bulkN == 0 && !a.tags.contains "init-spawn-failed" && a.h.workers.size != expectW then
             [s!"thread accounting: {a.h.workers.size} worker threads were created, expected min + spawns = {expectW}"] else [])
           -- step-level replay: the recorded run must be an execution of the model
           let doReplay := a.okCfg && !a.noReplay && !a.evs.isEmpty
-          let cfg : Cfg := if doReplay then { min := a.mn, max := a.h.max } else { min := 0, max := 1 }
+          let cfg : Cfg := if doReplay then { min := a.mn0, max := a.max0 } else { min := 0, max := 1 }
           let r := if doReplay then Tbox.C05.Replay.replay cfg a.evs else { s := init cfg }
           let chk := Tbox.C05.Replay.checked cfg r
           let rechecked := chk.isSome
@@ -503,20 +595,20 @@ def finish (d : DS) : List String :=
           let complete := doReplay && !r.dead
           let md := md ++ r.md.take 3 ++
             (if doReplay && !rechecked then ["replay: the reconstructed step list is not accepted by `exec`"] else []) ++
-            (if complete && fs.ranIds.length != a.h.bodies.size then
-              [s!"replay: the model executed {fs.ranIds.length} task bodies, the run {a.h.bodies.size}"] else []) ++
-            (if complete && a.h.cleanup.isSome && fs.cbs.length != a.h.cbs.size then
-              [s!"replay: the model executed {fs.cbs.length} completion callbacks, the run {a.h.cbs.size}"] else [])
+            (if complete && fs.ranIds.length != a.ranTot + a.h.bodies.size then
+              [s!"replay: the model executed {fs.ranIds.length} task bodies, the run {a.ranTot + a.h.bodies.size}"] else []) ++
+            (if complete && a.h.cleanup.isSome && fs.cbs.length != a.cbTot + a.h.cbs.size then
+              [s!"replay: the model executed {fs.cbs.length} completion callbacks, the run {a.cbTot + a.h.cbs.size}"] else [])
           let tags := tags0 ++ (if n > 0 then ["order-checked"] else []) ++ (if md.isEmpty then [] else ["m-divergence"]) ++
             (if complete then ["replayed"] else []) ++ (if a.noReplay then ["log-overflow"] else []) ++
             (if r.picks > 0 then ["pick-replayed"] else []) ++ (if r.answers > 0 then ["answer-replayed"] else []) ++
-            (if r.spawns > a.mn then ["spawn-replayed"] else [])
+            (if r.spawns > a.mn0 then ["spawn-replayed"] else []) ++ (if r.cabChecks > 0 then ["cabinet-layer-checked"] else []) ++ (if complete && a.life > 0 then ["lifecycles-replayed"] else [])
           match r.perr with
           | some e => md.map (fun m => "mdiv " ++ m) ++ ["B " ++ " ".intercalate (tags.eraseDups), "reject " ++ e]
           | none =>
           md.map (fun m => "mdiv " ++ m) ++
           ["B " ++ " ".intercalate (tags.eraseDups),
-           s!"ok ops={a.nops} tasks={a.h.tasks.size} ran={a.h.bodies.size} cbs={a.h.cbs.size} queries={a.h.queries.size} orderpairs={n} steps={r.steps.length} picks={r.picks} answers={r.answers}"]
+           s!"ok ops={a.nops} tasks={a.h.tasks.size} ran={a.h.bodies.size} cbs={a.h.cbs.size} queries={a.h.queries.size} orderpairs={n + a.pairsTot} lifecycles={a.life + 1} steps={r.steps.length} picks={r.picks} answers={r.answers}"]
 
 def stepLine (d : DS) (line : String) : DS × List String :=
   let t := line.trimAscii.toString
